@@ -130,7 +130,7 @@ func (p *Proxy) SetAttr(name string, value Object) error {
 			if result == nil {
 				field.SetZero()
 			} else {
-				field.Set(reflect.ValueOf(result))
+				field.Set(assignableValue(reflect.ValueOf(result), field.Type()))
 			}
 			return nil
 		} else {
@@ -202,7 +202,7 @@ func (p *Proxy) call(ctx context.Context, m *GoMethod, args ...Object) Object {
 		if err != nil {
 			return TypeErrorf("type error: failed to convert argument %d in %s() call: %s", i, methodName, err)
 		}
-		inputs = append(inputs, reflect.ValueOf(input))
+		inputs = append(inputs, assignableValue(reflect.ValueOf(input), m.method.Type.In(i)))
 		argIndex++
 	}
 	if len(inputs) < minArgs {
